@@ -278,6 +278,9 @@ func init() {
 			c17BodyJSON(c)
 			c17BodyQuery(c)
 			c17BodyYAML(c)
+			for _, t := range c17YFixedCases() {
+				kC17YFixed.Do(c, t)
+			}
 		},
 	})
 }
